@@ -252,6 +252,7 @@ func Explore(p *Program, cfg Config) *Report {
 	var mu sync.Mutex
 	cond := sync.NewCond(&mu)
 	stack := [][]Decision{nil}
+	raceSeen := map[string]bool{}
 	active := 0
 	stop := false
 	var wg sync.WaitGroup
@@ -343,6 +344,14 @@ func Explore(p *Program, cfg Config) *Report {
 					rep.Completed++
 				}
 				for _, v := range res.Violations {
+					if strings.HasPrefix(v.Label, "race:") {
+						// monitor reports: one per distinct (field, reader, writer)
+						if !raceSeen[v.Label] {
+							raceSeen[v.Label] = true
+							rep.Violations = append(rep.Violations, v)
+						}
+						continue
+					}
 					if v.Unlisted {
 						rep.UnlistedViolations++
 						rep.Violations = append(rep.Violations, v)
